@@ -207,6 +207,7 @@ func main() {
 	vlib.WriteJSON(filepath.Join(*dir, "refcheck.json"), map[string]interface{}{"ok": refOK, "notes": refNotes})
 
 	asconPart(*dir, *seed, *njobs)
+	expanderPart(*dir, vlib.Rng(*seed, "c15-expander"), *njobs)
 
 	// ---------------- call traces
 	kinds := []xofrun.Kind{
